@@ -134,7 +134,10 @@ class Initiator(DataExchangeProtocol):
                 pass
             else:
                 if self.target:
-                    atr_res = ATR_RES.decode(self.target.atr_res)
+                    try:
+                        atr_res = ATR_RES.decode(self.target.atr_res)
+                    except nfc.clf.ProtocolError as error:
+                        log.debug(error)
                 else:
                     self._acm = None
 
